@@ -279,6 +279,8 @@ class ParserSessionProp(object):
         forked workers: in-process simulated workers share module globals with the
         parent, which real workers do not (isolation artefact => harness error)"""
         import math as _m
+        if spec.get('regenerate'):
+            return True, 'crash during generation'
         pooled = any(op.get('op') == 'call' and len(op['batch']) > op.get('max_chunk_size', 20)
                      for op in spec['ops'])
         if not pooled:
